@@ -223,6 +223,12 @@ public:
       bloc::Value& a0 = args[0]->value(ctx);
       if (a0.isNull())
         return new bloc::Value(bloc::Type(bloc::Type::COMPLEX, object_this.typeId()));
+      {
+        /* the argument is declared as an object of this module */
+        VObj * src = static_cast<VObj*>(a0.complex()->instance());
+        if (src->magic != VMOD_MAGIC || strcmp(src->tag, VMOD_NAME) != 0)
+          vlog(std::string("X ") + VMOD_NAME + " foreign-object-as-argument other");
+      }
       return new bloc::Value(new bloc::Complex(*a0.complex()));
     }
     case Add:
